@@ -1320,6 +1320,17 @@ MODULE_SUBJECTS = [
         latent_dim=16, max_latent_dim=32,
         cnn_config=dict(channel_size=[16, 16], kernel_size=[3, 3], stride_size=[1, 1], min_channel_size=8, max_channel_size=64))},
     {"kind": "MultiInput", "obs": "dict2img", "opts": dict(hw=[9, 7])},
+    # every constructor option at a NON-default value: a re-created network has to be built with all of them
+    {"kind": "MLP", "opts": dict(activation="GELU", new_gelu=True)},
+    {"kind": "MLP", "opts": dict(activation="GELU", new_gelu=True, output_activation="Sigmoid", layer_norm=False, output_layernorm=True,
+                                  output_vanish=False, init_layers=False, noisy=True, noise_std=0.2, hidden_size=[64, 64])},
+    {"kind": "CNN2d", "opts": dict(hw=12, channel_size=[32, 32], kernel_size=[3, 3], stride_size=[1, 1], activation="ELU",
+                                    output_activation="Tanh", layer_norm=True, init_layers=False)},
+    {"kind": "LSTM", "opts": dict(hidden_size=64, num_layers=2, output_activation="Tanh", dropout=0.0)},
+    {"kind": "SimBa", "opts": dict(hidden_size=64, num_blocks=2, output_activation="Tanh", scale_factor=2)},
+    {"kind": "ResNet", "opts": dict(hw=8, output_activation="Tanh", scale_factor=2)},
+    {"kind": "MultiInput", "obs": "dict", "opts": dict(output_activation="Tanh", vector_space_mlp=True, latent_dim=24,
+                                                      mlp_config=dict(hidden_size=[32], activation="GELU", new_gelu=True))},
 ]
 
 NETWORKS = {
